@@ -610,12 +610,13 @@ func runC11Scan(c *Ctx) {
 		c.anchorMissing("(*RuleExpression).checkExprsIn")
 		return
 	}
-	calls := findCalls(fn, "(*RuleExpression).checkSemantics")
-	if len(calls) != 1 {
-		c.bad("(*RuleExpression).checkExprsIn|scan", fn.Pos(), fmt.Sprintf("%d calls of checkSemantics", len(calls)))
+	sites := parseSites(p, fn)
+	if len(sites) != 1 {
+		c.bad("(*RuleExpression).checkExprsIn|scan", fn.Pos(), fmt.Sprintf("%d places where the text of a placeholder is parsed", len(sites)))
 		return
 	}
-	call := calls[0].(*ssa.Call)
+	site := sites[0]
+	call := site.call
 	var hdr *ssa.BasicBlock
 	for _, b := range fn.Blocks {
 		if b.Dominates(call.Block()) && len(naturalLoop(b)) > 1 && naturalLoop(b)[call.Block()] {
@@ -643,16 +644,20 @@ func runC11Scan(c *Ctx) {
 		onlySemantic := false
 		parseFailed := false
 		for ifi, outcome := range controllingConds(b) {
-			if ex, ok := ifi.Cond.(*ssa.Extract); ok && ex.Tuple == ssa.Value(call) && ex.Index == 2 && !outcome {
+			if site.isSemOK(ifi.Cond) && !outcome {
 				onlySemantic = true
 			}
-			if v, nilSucc, ok := nilTest(ifi); ok {
-				if ex, ok := v.(*ssa.Extract); ok && ex.Tuple == ssa.Value(call) && ex.Index == 0 && (nilSucc == 0) == outcome {
+			if v, nilSucc, ok := nilTest(ifi); ok && site.isParseErr(v) {
+				// helper form: the type result is nil when nothing was parsed; inline form: the parse error is not nil
+				if site.helper != nil && (nilSucc == 0) == outcome {
+					parseFailed = true
+				}
+				if site.helper == nil && (nilSucc == 0) != outcome {
 					parseFailed = true
 				}
 			}
 			if bo, ok := ifi.Cond.(*ssa.BinOp); ok && bo.Op == token.EQL && outcome {
-				if ex, ok := bo.X.(*ssa.Extract); ok && ex.Tuple == ssa.Value(call) && ex.Index == 1 {
+				if k, isConst := constInt(bo.Y); isConst && k == 0 && site.isOffset(bo.X) {
 					parseFailed = true
 				}
 			}
